@@ -47,11 +47,23 @@ where
 
     /// Splits off `n` non-overlapping [`Scratch`] regions of `len` bytes each.
     ///
+    /// Every region starts on a [`DEFAULTALIGN`](crate::DEFAULTALIGN) boundary, so when `len` is not a
+    /// multiple of the alignment each region but the last also consumes the padding up to the next boundary.
+    ///
     /// # Panics
     ///
-    /// Panics if `self.available() < n * len`.
+    /// Panics if `self.available() < (n - 1) * len.next_multiple_of(DEFAULTALIGN) + len` (for `n > 0`).
     pub fn split_mut(&mut self, n: usize, len: usize) -> (Vec<&mut Scratch<BE>>, &mut Self) {
-        assert!(self.available() >= n * len);
+        let needed: usize = if n == 0 {
+            0
+        } else {
+            (n - 1) * len.next_multiple_of(crate::DEFAULTALIGN) + len
+        };
+        assert!(
+            self.available() >= needed,
+            "scratch.available(): {} < {needed} needed for {n} aligned regions of {len} bytes",
+            self.available()
+        );
         let mut scratches: Vec<&mut Scratch<BE>> = Vec::with_capacity(n);
         let mut scratch: &mut Scratch<BE> = self;
         for _ in 0..n {
